@@ -18,6 +18,7 @@ import Pandora.Proofs.C05Inst
 import Pandora.Bridge.C05Wait
 import Pandora.Proofs.C05R6
 import Pandora.Bridge.C05Prov
+import Pandora.Gen.ProvLoops
 
 namespace Pandora.Props.C05
 open Pandora.Model.C05 Pandora.Proofs.C05
@@ -1202,5 +1203,39 @@ example : (run Cfg.repaired ([.warm (.ok true), .sched none] ++
       .provRet (RunRes.decodeFailed 2 .unexpectedEof).toRet :: [.awaitProv, .errDeliver])).extC = false ∧
     engRun 1 [.pool 0 (.fail .provider (.err 1)) false] = some (.fail 0 (.fail .provider (.err 1))) := by decide
 end EndToEnd
+
+/-! ### round 6: composition over another property's regenerated definitions (C08, the http provider's scan loop) -/
+section HttpProvider
+
+/-- the http provider's `Run` result (classes of C08's model) as the POOL model sees it -/
+def C05_httpRet : Pandora.Model.C08.RunRes → Ret
+  | .nil => .ok
+  | .canceled => .ctx
+  | _ => .err 1
+
+/-- COMPOSITION over ANOTHER property's regenerated definitions (C08, area `provloops`: the loop body of the http
+provider's `runFullScan`, re-extracted from `components/providers/http/provider/provider.go` on every run): a `Scan` that
+fails with anything but the limit sentinels (a malformed, truncated or unreadable ammo) - the context live, the limit not
+reached, not the "whole pass without ammo" case - makes the loop RETURN that error (it is not skipped, not turned into
+nil); `Run` hands the result of `runFullScan` on unchanged, and that error, returned while the pool's provider runs,
+never lets `Pool.Run` succeed unless the caller cancelled -/
+theorem C05_http_scan_failure_fails_pool (cfg : Cfg) (hfix : cfg.fixSelect = true) (pre post : List Choice)
+    (limit ammoNum passNum : Nat) (chosen : Bool)
+    (hl : ¬(limit ≠ 0 ∧ ammoNum ≥ limit)) (hp : ¬(ammoNum = 0 ∧ passNum > 0))
+    (hrun : (run cfg pre).prov = .running) :
+    (match Pandora.Gen.ProvLoops.runFullScanStep limit false ammoNum passNum .unexpected chosen with
+      | .ret r => r = .errOther
+      | _ => False) ∧
+    Pandora.Gen.ProvLoops.httpRunCloses = true ∧
+    (let s := run cfg (pre ++ .provRet (C05_httpRet .errOther) :: post)
+     s.extC = false → s.result ≠ some .ok) := by
+  refine ⟨?_, rfl, ?_⟩
+  · have hp' : ¬(ammoNum = 0 ∧ 0 < passNum) := hp
+    simp [Pandora.Gen.ProvLoops.runFullScanStep, hl, hp']
+  · exact C05_provider_failure_fails_pool cfg hfix pre post (.decodeFailed ammoNum .parseErr) rfl hrun
+
+-- non-vacuity: the third ammo of the first pass is malformed
+example : ¬((0 : Nat) ≠ 0 ∧ 2 ≥ 0) ∧ ¬((2 : Nat) = 0 ∧ 0 > 0) := by decide
+end HttpProvider
 
 end Pandora.Props.C05
